@@ -25,8 +25,8 @@ for d in sorted(glob.glob(ROOT + "/C*")):
         "property": agent.get("property", sid[:3]),
         "seed_id": sid,
         "summary": agent.get("summary"),
-        "needs_to_manifest": agent.get("needs"),
-        "files_changed": agent.get("files"),
+        "needs_to_manifest": agent.get("needs") or agent.get("needs_to_manifest"),
+        "files_changed": agent.get("files") or agent.get("files_changed"),
         "written_by": "independent sub-agent given only the property text and a scratch worktree",
         "reverified_here": ver,
         "how_reverified": "lib/verify_seeded.sh <worktree> <id>: git apply patch.diff; cargo test -p ark-poly-commit --offline --lib; cargo test --test demo_<id>; revert; cargo test --test demo_<id>",
